@@ -321,7 +321,7 @@ def run(tier, seed):
     texts, ntexts, fails = [], [], 0
     # (1) stacks of 0..4 entries x block outcome against real nested with statements (and the model's [nested])
     stacks = []
-    nst = 600 * common.scale(rep) if tier == "quick" else 8000
+    nst = 600 * common.scale(rep) if tier == "quick" else 30000
     for _ in range(nst):
         n = rng.randrange(0, 5)
         stacks.append(([mk_entry(rng, i + 1) for i in range(n)], rng.choice(["normal", 5])))
@@ -350,7 +350,7 @@ def run(tier, seed):
         # model: callbacks see the in-flight exception in the model's log; the real ones cannot: use the model's view for exits only
         ntexts.append((entries, block, out_n, log_n, cbids))
     # (2) histories against contextlib.AsyncExitStack and the model
-    nh = 600 * common.scale(rep) if tier == "quick" else 8000
+    nh = 600 * common.scale(rep) if tier == "quick" else 30000
     hist = [gen_history(rng, tier) for _ in range(nh)]
     # corpus: the run-twice defect fixed in /repo
     e1 = Entry(1, "scb", "falsy", "falsy")
